@@ -231,6 +231,14 @@ def k_streams(ctx):
             exp = real_chiral_morgan(m)
             add('cmorgan', line, exp, line, len(m) >= 2 and exp != 'notmodelled', vname)
             ctx.dist('cmorgan:' + ('stereo-labelled (outside the model)' if exp == 'notmodelled' else 'label-free'))
+        # the stored `in_ring` label that Element.__hash__ reads is the structural fact "lies on a cycle" (independent oracle)
+        ring_atoms = set().union(*[comp for comp, _ in ring_systems({n: dict.fromkeys(ms) for n, ms in mol._bonds.items()})] or [set()])
+        wrong = [n for n, a in mol._atoms.items() if bool(a.in_ring) != (n in ring_atoms)]
+        ctx.count(('in_ring', tuple(xs0 := view_ints(mol))), bool(ring_atoms))
+        ctx.dist('in_ring-label:checked')
+        if wrong:
+            ctx.cov['disagreements_checked'] += 1
+            ctx.broke('relational', 'Element.in_ring label vs lies-on-a-cycle', f'{name}: atoms {wrong[:8]}; wire {xs0}')
         for n, a in mol._atoms.items():
             h = a._implicit_hydrogens
             key = (a.atomic_number, a._isotope or 0, a._charge, int(a._is_radical), -1 if h is None else h, int(a.in_ring))
